@@ -265,6 +265,7 @@ func runC04(t *rapid.T) {
 	w.T = vt.New(cfg.W, cfg.H, nil)
 	w.T.Title = "user-shell"
 	pristine := snap(w.T)
+	w.S.Note(hx.Fingerprint(cfg, ops, ending, stims, readErr))
 	if readErr {
 		w.Tty.ReadErr = hx.ErrInjected
 		w.Tty.ErrAfter = 3
